@@ -179,8 +179,9 @@ def builtin(ex, st, callee, args, dty, fr):
                     mv = ex.fresh_lazy(inner[0] if inner else "?", "mapped")
                     if hasattr(mv, "oid"):        # provenance: the mapped value is a function of the closure and the payload
                         pl = payload(ex, st, v, "Some", 0, "?")
-                        ex.havoc_calls[mv.oid] = ("Option::map", [args[1], pl])
-                        ex.havoc_snap[mv.oid] = [deref_val(ex, st, args[1]), pl]
+                        ex.havoc_calls[mv.oid] = ("Option::map", [pl, args[1]])
+                        ex.havoc_snap[mv.oid] = [pl, deref_val(ex, st, args[1])]
+                        ex.havoc_raw[mv.oid] = callee
                     out.append((cnd, opt_some(dty, mv)))
                 else:
                     out.append((cnd, opt_none(dty)))
